@@ -5,7 +5,11 @@
 # The environment /tmp/mut-<Cxx>/ is kept between calls (incremental builds); remove it with
 # tools/mutant_clean.sh <Cxx> when done.
 set -e
-P=$1; PATCH=$(realpath "$2"); TIER=${3:-quick}
+# <patch.diff> may be a colon-separated list of patches applied in order (e.g. a hook patch that is
+# not yet in /repo, then the mutant). With SV_KEEP_HARNESS=1 the private harness copy
+# /tmp/mut-<Cxx>/harness/src is NOT refreshed from /verif/harness/src (for developing a new
+# harness family privately).
+P=$1; PATCHES=$2; TIER=${3:-quick}
 V=$(cd "$(dirname "$0")/.." && pwd)
 W=/tmp/mut-$P
 mkdir -p $W
@@ -14,11 +18,18 @@ if [ ! -d $W/repo ]; then
 fi
 git -C $W/repo checkout -q --detach $(git -C /repo rev-parse HEAD)
 git -C $W/repo checkout -q -- . && git -C $W/repo clean -fdq -e target
-if [ "$PATCH" != "/dev/null" ] && [ -s "$PATCH" ]; then
-  git -C $W/repo apply "$PATCH"
-fi
+OLDIFS=$IFS; IFS=:
+for PATCH in $PATCHES; do
+  PATCH=$(realpath "$PATCH")
+  if [ "$PATCH" != "/dev/null" ] && [ -s "$PATCH" ]; then
+    git -C $W/repo apply "$PATCH"
+  fi
+done
+IFS=$OLDIFS
 mkdir -p $W/harness/.cargo
-rsync -a --delete $V/harness/src/ $W/harness/src/
+if [ -z "$SV_KEEP_HARNESS" ] || [ ! -d $W/harness/src ]; then
+  rsync -a --delete $V/harness/src/ $W/harness/src/
+fi
 sed "s#path = \"/repo\"#path = \"$W/repo\"#" $V/harness/Cargo.toml > $W/harness/Cargo.toml
 cp $V/harness/Cargo.lock $W/harness/Cargo.lock
 printf '[net]\noffline = true\n[build]\ntarget-dir = "%s/target"\n' $W > $W/harness/.cargo/config.toml
